@@ -49,6 +49,16 @@ check("C01", "exploration",
       "deterministic simulation with fault injection: seeded schedule/fault/crash search, per-step store invariants, bounded-liveness fixpoint after heal, tape replay and minimisation",
       "§7 C01")
 
+check("C03", "exploration",
+      "Same world as C01 with failure injection aimed at the pipeline: scripted fatal results at a chosen step (switched on and off by XR edits), never-stabilising requirement programs, "
+      "gRPC transport errors at the function seam, API errors on the reads that observe composed resources, their secrets, function revisions and extra resources; desired sets that grow, shrink and drop across reconciles; P&T templates toggled. "
+      "Each finished XR reconcile is judged from the API write log and the recorded function calls: a reconcile in which one of the four failure kinds occurred issued no write on any composed kind and left spec.resourceRefs unchanged; "
+      "a successful compose deleted exactly the previously referenced, existing, not foreign-controlled resources absent from the final desired state (pipeline: last response; P&T: template names of the revision used); "
+      "no reconcile ever deletes or label-strips a resource that is in its final desired state, deletes something the XR never referenced, or deletes a foreign-controlled object.",
+      TB + " The final desired state is taken from the scripted functions' recorded responses (the wire bytes the composer received). Not decided: foreign-controlled referenced resources (covered by C02's placements).",
+      "deterministic simulation with fault injection: seeded schedule/fault search, per-reconcile oracle over the recorded write log and function-call history",
+      "§7 C03")
+
 def main():
     props = [json.loads(l)["id"] for l in open(os.path.join(V, "properties.jsonl"))]
     na = []
